@@ -803,6 +803,20 @@ theorem format_pad_width (isPrint : Nat → Bool) (d : UInt8) (ds x : Bytes) (hd
   · rw [runeCount_spaces_append]; omega
   · rw [runeCount_append_spaces]; omega
 
+/-- `%12s` / `%-12s` of a 3-rune string (one invalid byte among them): nine blanks. -/
+example : ∃ pad : Bytes, pad = List.replicate 9 32 ∧
+    Format.sprintf (fun _ => true) (Format.lit "%12s") [[0xC3, 0xA9, 0xFF, 120]] = .ok (pad ++ [0xC3, 0xA9, 0xFF, 120]) ∧
+    Format.sprintf (fun _ => true) (Format.lit "%-12s") [[0xC3, 0xA9, 0xFF, 120]] = .ok ([0xC3, 0xA9, 0xFF, 120] ++ pad) := by
+  obtain ⟨pad, hp, h1, h2, _, _⟩ := format_pad_width (fun _ => true) 49 [50] [0xC3, 0xA9, 0xFF, 120]
+    (by decide) (by decide) (by decide)
+  refine ⟨pad, ?_, h1, h2⟩
+  rw [hp]
+  decide +kernel
+
+example : Format.sprintf (fun _ => false) (Format.lit "100" ++ 37 :: 37 :: Format.lit " done") [] =
+    .ok (Format.lit "100" ++ 37 :: Format.lit " done") :=
+  (format_percent_literal _ _ _ (by decide) (by decide)).1
+
 example : (Format.sprintf (fun _ => true) (Format.lit "%5s|%-5s|") [Format.lit "ab", [0xC3, 0xA9, 0xFF]]).toOption =
       some (Format.lit "   ab|" ++ [0xC3, 0xA9, 0xFF] ++ Format.lit "   |") ∧
     (Format.sprintf (fun _ => true) (Format.lit "%q %x %d %[1]s %s %! %") [Format.lit "a\"b", Format.lit "hi"]).toOption =
